@@ -112,3 +112,26 @@ pub fn rch_cfg(rng: &mut Rng) -> remoc::Cfg {
     cfg.connect_queue = 16;
     cfg
 }
+
+/// Like [`connect_rch`] but with independent item types on the two endpoints (A sends `ATx` and receives `ARx`,
+/// B sends `BTx` and receives `BRx`): used to feed an endpoint values whose wire representation was produced by
+/// a look-alike type.
+pub async fn connect_rch_hetero<ATx: RemoteSend, ARx: RemoteSend, BTx: RemoteSend, BRx: RemoteSend>(
+    cfg_a: remoc::Cfg, cfg_b: remoc::Cfg, netcfg: NetCfg, rng: &mut Rng,
+) -> Result<(Arc<Net>, RchEnd<ATx, ARx>, RchEnd<BTx, BRx>, Option<JoinHandle<()>>), String> {
+    let mon = WireMon::new(EpCfg::from_cfg(&cfg_a), EpCfg::from_cfg(&cfg_b), Mode::Full);
+    let net = Net::new(netcfg.clone(), Some(mon));
+    let ((sa, ra), (sb, rb)) = net.endpoints();
+    let sched = match netcfg.delivery {
+        Delivery::Eager => None,
+        _ => Some(crate::sched::spawn(run_scheduler(net.clone(), rng.fork(77)))),
+    };
+    let ta = crate::sched::spawn(async move { remoc::Connect::framed::<_, _, ATx, ARx, remoc::codec::Default>(cfg_a, sa, ra).await.map_err(|e| e.to_string()) });
+    let tb = crate::sched::spawn(async move { remoc::Connect::framed::<_, _, BTx, BRx, remoc::codec::Default>(cfg_b, sb, rb).await.map_err(|e| e.to_string()) });
+    let (ra_, rb_) = or_quiescent(async { tokio::join!(ta, tb) }).await.ok_or_else(|| "Connect::framed pending at quiescence".to_string())?;
+    let (conn_a, tx_a, rx_a) = ra_.map_err(|e| e.to_string())?.map_err(|e| format!("A: {e}"))?;
+    let (conn_b, tx_b, rx_b) = rb_.map_err(|e| e.to_string())?.map_err(|e| format!("B: {e}"))?;
+    let ca = crate::sched::spawn(conn_a);
+    let cb = crate::sched::spawn(conn_b);
+    Ok((net, RchEnd { tx: tx_a, rx: rx_a, conn: ca }, RchEnd { tx: tx_b, rx: rx_b, conn: cb }, sched))
+}
